@@ -265,6 +265,7 @@ def run(tier, seed):
                                                     f"but {short(ref[int(k)])} in a fresh interpreter",
                                         "expected": "identical output files"})
                         break
+        failing += decoy_stream(ck, tmp, ops, ops_file, ref)
         failing += rewrite_histories(ck, tmp)
         failing += signer_histories(ck, tmp)
         ck.cov["rule"] = ("operations: create from JSON and from YAML of the same generated description, parse (yaml/json, hierarchy on/off), "
@@ -276,6 +277,82 @@ def run(tier, seed):
     finally:
         shutil.rmtree(tmp, ignore_errors=True)
 
+
+
+def _strings(x, out):
+    if isinstance(x, dict):
+        for k, v in x.items():
+            _strings(k, out)
+            _strings(v, out)
+    elif isinstance(x, (list, tuple)):
+        for v in x:
+            _strings(v, out)
+    elif isinstance(x, str):
+        out.add(x)
+
+
+def decoy_stream(ck, tmp, ops, ops_file, ref):
+    """The working directory is not an input: every create runs again from a directory that holds a (non-empty) file named after
+    every string of its description — names, inline hex values, keys, in the spelling given and in upper / lower case.  Inputs are
+    referenced by absolute path, so none of these strings refers to a file; the envelope must be the one created from an empty
+    directory.  Plus designed descriptions whose payloads and digests are given inline as hex."""
+    import yaml
+    fails = []
+    d = os.path.join(tmp, "decoy")
+    os.makedirs(d, exist_ok=True)
+    designed = []
+    for j, (pay, dig) in enumerate((("CAFE", "00" * 32), ("beef", "ab" * 32), ("00", "0123456789abcdef" * 4), ("", "AB" * 32))):
+        desc = {"SUIT_Envelope_Tagged": {
+            "suit-authentication-wrapper": {"SuitDigest": {"suit-digest-algorithm-id": "cose-alg-sha-256"}},
+            "suit-manifest": {"suit-manifest-version": 1, "suit-manifest-sequence-number": j,
+                              "suit-common": {"suit-components": [["M", 1, "00"]]},
+                              "suit-install": [{"suit-directive-override-parameters": {
+                                  "suit-parameter-image-digest": {"suit-digest-algorithm-id": "cose-alg-sha-256", "suit-digest-bytes": dig},
+                                  "suit-parameter-uri": "#" + pay}}]},
+            "suit-integrated-payloads": {"#" + pay: pay}}}
+        for fmt in ("json", "yaml"):
+            pin = os.path.join(d, f"inline{j}.{fmt}")
+            with open(pin, "w") as fh:
+                if fmt == "json":
+                    json.dump(desc, fh)
+                else:
+                    yaml.dump(desc, fh, sort_keys=False)
+            designed.append({"kind": "create", "input": pin})
+    all_ops = list(ops) + designed
+    of = os.path.join(d, "ops.json")
+    with open(of, "w") as fh:
+        json.dump(all_ops, fh)
+    for i, op in enumerate(all_ops):
+        if op["kind"] != "create":
+            continue
+        if i < len(ops):
+            want = ref[i]
+        else:
+            r = run_worker(tmp, of, [i], os.path.join(d, f"fresh{i}"), cwd=tempfile.mkdtemp(prefix="empty", dir=d))
+            want = r.get(str(i), [r])[0]
+        with open(op["input"]) as fh:
+            desc = json.load(fh) if op["input"].endswith(".json") else yaml.safe_load(fh)
+        names = set()
+        _strings(desc, names)
+        cwd = tempfile.mkdtemp(prefix="cwd", dir=d)
+        made = 0
+        for nm in sorted(names):
+            for v in {nm, nm.upper(), nm.lower(), nm.lstrip("#")}:
+                if v and "/" not in v and "\x00" not in v and v not in (".", "..") and len(v.encode()) < 200:
+                    try:
+                        with open(os.path.join(cwd, v), "wb") as fh:
+                            fh.write(b"\xde\xc0\x01decoy")
+                        made += 1
+                    except OSError:
+                        pass
+        r = run_worker(tmp, of, [i], os.path.join(d, f"decoy{i}"), cwd=cwd)
+        got = r.get(str(i), [r])[0]
+        ck.count("decoy-cwd", (i, op["input"]), nontrivial="exception" not in want, sample={"op": "create from a directory holding files named after the strings of the description", "decoy_files": made})
+        if got != want:
+            fails.append({"input": {"operation": op, "description": desc, "working_directory_holds_files_named": sorted(names)[:40]},
+                          "observed": f"create gives {short(got)} from a working directory that holds files named after strings of the description, but {short(want)} from an empty one",
+                          "expected": "identical output: no string of this description refers to a file"})
+    return fails
 
 
 def rewrite_histories(ck, tmp):
